@@ -163,7 +163,24 @@ func kindRange(k Kind) (lo, hi float64, isInt bool) {
 // numericBound draws a bound value as a decimal string valid for the kind.
 func (g *gen) numericBound(k Kind, label string) string {
 	if k.IsFloat() {
-		return pick(g, []string{"0", "1.5", "-2.25", "100", "0.1", "1e6", "-1e-3"}, label)
+		switch g.intn(0, 3, label+".src") {
+		case 0:
+			return pick(g, []string{"0", "1.5", "-2.25", "100", "0.1", "1e6", "-1e-3"}, label)
+		case 1:
+			if k == KDouble {
+				// values that need all 17 significant digits, integers beyond 2^24 and 2^53, extreme magnitudes
+				return pick(g, []string{"3.141592653589793", "16777217", "-33.856784", "0.30000000000000004", "123456789.125", "9007199254740993",
+					"1e300", "-1e300", "5e-324", "1.7976931348623157e+308", "2.2250738585072014e-308"}, label)
+			}
+			return pick(g, []string{"16777216", "3.4028235e+38", "-3.4028235e+38", "1e-45", "0.33333334", "1.1754944e-38", "8388608.5"}, label)
+		default:
+			if k == KDouble {
+				v := rapid.Float64().Filter(func(f float64) bool { return !math.IsNaN(f) && !math.IsInf(f, 0) }).Draw(g.t, label+".f64")
+				return strconv.FormatFloat(v, 'g', -1, 64)
+			}
+			v := rapid.Float32().Filter(func(f float32) bool { return !math.IsNaN(float64(f)) && !math.IsInf(float64(f), 0) }).Draw(g.t, label+".f32")
+			return strconv.FormatFloat(float64(v), 'g', -1, 32)
+		}
 	}
 	var pool []string
 	if k.IsUnsigned() {
